@@ -1,6 +1,7 @@
 import Bpmn.Driver.Util
 import Bpmn.Driver.C01
 import Bpmn.Model.Cond
+import Bpmn.Gen.C04
 /-! Driver for C04: condition differential (both expression engines against `Cond.eval`) and engine-level
 exclusive-gateway runs. -/
 namespace Bpmn.Driver.C04
@@ -8,6 +9,11 @@ open Bpmn.Driver Bpmn.Model
 
 def showRes : CondResult → String
   | .yes => "yes" | .no => "no" | .error => "error"
+
+/-- Does the XPath engine of the tree under check lose the variables when there are two or more (D24)? Read from the
+regenerated fact `Bpmn.Gen.C04.xpathVarsReachable`: only `some true` (the repaired shape of
+`XPath.EvaluateExpression`) switches the defect off in the model; an unreadable fact means today's behaviour. -/
+def xpathLosesVars : Bool := Bpmn.Gen.C04.xpathVarsReachable != some true
 
 /-- lines: `cond <rpn>`, `vars k=v,…`, `expr <yes|no|error|nonbool|panic>`, `xpath <…>` -/
 def checkCond (_params lines : List String) : CaseResult := Id.run do
@@ -25,7 +31,9 @@ def checkCond (_params lines : List String) : CaseResult := Id.run do
       let res := if res == "nonbool" then "error" else res
       let truth := showRes (c.eval vs)
       -- the model of what the engine computes: expr is exact; XPath loses the variables when there are ≥ 2
-      let m := if engine == "xpath" && vs.length ≥ 2 then
+      -- (unless the tree under check has the repaired shape, see `xpathLosesVars`)
+      let lost := xpathLosesVars && engine == "xpath" && vs.length ≥ 2
+      let m := if lost then
           (match c.evalXPathNoVars with | some true => "yes" | some false => "no" | none => "error")
         else truth
       if res == "panic" then
@@ -34,7 +42,7 @@ def checkCond (_params lines : List String) : CaseResult := Id.run do
         if m != res then
           r := { r with diffs := s!"{engine}: model {m} impl {res}" :: r.diffs }
         if truth != res then
-          let sig := if engine == "xpath" && vs.length ≥ 2 && m == res then "xpath_variables_unreachable" else "condition_wrong_result"
+          let sig := if lost && m == res then "xpath_variables_unreachable" else "condition_wrong_result"
           r := { r with specs := s!"{sig}: {engine} evaluated the condition to {res}, its value is {truth}" :: r.specs }
     | _ => r := { r with bad := ln :: r.bad }
   if c == .unknown then r := { r with bad := "condition not parsed" :: r.bad }
